@@ -208,6 +208,18 @@ QAgree(spec, o, env) ==
          /\ (spec.hasdims /\ ~spec.recip /\ env.hasq /\ ~FactorSilent(o, env.qenv) => NamesFactor(o, spec.dtop, spec.dbot, env.qenv))
     [] OTHER -> Agree(spec, o) /\ DurationOK(spec, o, env)
 
+\* the same law for FLOAT values and float-valued units (the property's exact clauses cannot hold for floats; what a float
+\* list still owes: every part but the last is a whole number, the contributions share v's sign, the sum is v and each
+\* remainder is smaller than the unit just used - up to a relative 2^-40).  v, us, ps: exact rationals of the observed floats.
+FloatListLaw(v, us, ps) ==
+  LET eps == QDiv(QAbs(v), QFromZ(Z(FALSE, NPow2(40))))
+  IN
+  /\ Len(ps) = Len(us)
+  /\ \A i \in 1..(Len(us) - 1) : QIsInt(ps[i])
+  /\ QLe(QAbs(QSub(PartialSum(ps, us, Len(us)), v)), eps)
+  /\ \A i \in 1..Len(us) : QSign(ps[i]) = 0 \/ QSign(ps[i]) * QSign(us[i]) = QSign(v) \/ QLe(QAbs(QMul(ps[i], us[i])), eps)
+  /\ \A i \in 1..Len(us) : QLe(QAbs(QSub(v, PartialSum(ps, us, i))), QAdd(QAbs(us[i]), eps))
+
 \* drift-level: the function form of the unit list (the code's own algorithm)
 ListDrift(spec, o) ==
   spec.t = "list" /\ o.t = "unitlist" /\ AllRational(o.list) /\
